@@ -346,6 +346,80 @@ func c08ForkEverywhere(r *rand.Rand, n int) *History {
 	return h
 }
 
+// c08WorkUnits: cumulative-work bookkeeping of the long-reorganisation histories (only to place the queries).
+func c08WorkUnits(bits uint32) uint64 {
+	switch bits {
+	case bitsW2:
+		return 2
+	case bitsW4:
+		return 4
+	case bitsW8:
+		return 8
+	case bitsMain:
+		return 4295032833
+	}
+	return 0
+}
+
+// c08ReorgPoints: indices of the submissions that switch the longest chain to another branch (first seen wins ties).
+func c08ReorgPoints(h *History) []int {
+	cum := map[int]uint64{genesisID: c08WorkUnits(bitsMain)}
+	tip := genesisID
+	var pts []int
+	for i, sb := range h.Subs {
+		p, ok := cum[sb.Prev]
+		if !ok {
+			continue
+		}
+		if _, dup := cum[sb.ID]; dup {
+			continue
+		}
+		cum[sb.ID] = p + c08WorkUnits(sb.Bits)
+		if sb.Prev == tip {
+			tip = sb.ID
+		} else if cum[sb.ID] > cum[tip] {
+			tip = sb.ID
+			pts = append(pts, i)
+		}
+	}
+	return pts
+}
+
+// c08LongOps: the history with, after every reorganisation and at the end, walks of several page sizes across the
+// reorganised region and single pages keyed by the root of every header stored at a boundary height (displaced
+// blocks: 409, newly longest blocks: 200).
+func c08LongOps(h *History) []merkOp {
+	ht, maxH := merkHeights(h)
+	set := merkBoundaryHeights(maxH)
+	var block []merkOp
+	for _, b := range []string{"1", "7", "250", "499", "500", "501", "abs"} {
+		block = append(block, qop("w", b))
+	}
+	seen := map[int]bool{}
+	for _, sb := range h.Subs {
+		if x, ok := ht[sb.ID]; ok && set[x] && !seen[sb.ID] {
+			seen[sb.ID] = true
+			block = append(block, qop("p", fmt.Sprintf("3:r%d", sb.Merkle)))
+			if x%3 == 0 {
+				block = append(block, qop("p", fmt.Sprintf("600:r%d", sb.Merkle)))
+			}
+		}
+	}
+	pts := map[int]bool{}
+	for _, i := range c08ReorgPoints(h) {
+		pts[i] = true
+	}
+	var ops []merkOp
+	for i := range h.Subs {
+		sb := h.Subs[i]
+		ops = append(ops, merkOp{Sub: &sb})
+		if pts[i] {
+			ops = append(ops, block...)
+		}
+	}
+	return append(ops, block...)
+}
+
 func runC08(c *Ctx) error {
 	s, err := NewStack(StackOpts{Dir: c.TmpDir("c08")})
 	if err != nil {
@@ -466,6 +540,16 @@ func runC08(c *Ctx) error {
 	}
 	for n := 1; n <= c.Pick(8, 14); n++ {
 		if err := static(c08ForkEverywhere(rng, n), "fork-at-every-height", true, n); err != nil {
+			return err
+		}
+	}
+	// reorganisations switching more than 500 headers in one submission (batching thresholds of the storage layer);
+	// quick: the 503-header displacement only (the extracted tip query is quadratic in the store size)
+	for i, h := range LongReorgHistories(c.Thorough()) {
+		if !c.Thorough() && i > 0 {
+			break
+		}
+		if err := r.run(headOf(h), c08LongOps(h), "long-reorganisation"); err != nil {
 			return err
 		}
 	}
